@@ -228,6 +228,209 @@ fn static_nestings<T: Scalar>(st: &mut Stats, sink: &Sink) {
     nest!(Divide, Divide, /, /, "Divide over Divide");
 }
 
+/// Statically typed combinator trees inside other views. Every arithmetic combinator is built
+/// directly over every ordered pair of seven child views (different warm-up lengths, stateless and
+/// stateful), stand-alone and wrapped in GTE / LTE / Tanh / Sma(1), with no `Dyn` anywhere: the outer
+/// view, the combinator and both children are the crate's own generic structs, as in user code. The
+/// oracle is the same as in `check`: the operation applied to the current outputs of two stand-alone
+/// copies of the children fed the same stream.
+mod nested {
+    use super::same_mod_zero;
+    use crate::explore::{guard, sequences};
+    use crate::report::{Sink, Stats, Violation};
+    use crate::scalar::{opt_key, opt_same};
+    use crate::spec::{Kind, Spec};
+    use sliding_features::pure_functions::{Add, Constant, Divide, Echo, Multiply, Subtract, Tanh, GTE, LTE};
+    use sliding_features::sliding_windows::{Cumulative, Ema, Roc, Sma};
+    use sliding_features::View;
+
+    pub trait Mk {
+        const NEVER_ZERO: bool = false;
+        fn mk() -> impl View<f64> + 'static;
+        fn spec() -> Spec;
+    }
+    pub struct KEcho;
+    pub struct KConst;
+    pub struct KSma;
+    pub struct KEma;
+    pub struct KCum;
+    pub struct KRoc;
+    pub struct KGte;
+    impl Mk for KEcho {
+        fn mk() -> impl View<f64> + 'static {
+            Echo::<f64>::new()
+        }
+        fn spec() -> Spec {
+            Spec::echo()
+        }
+    }
+    impl Mk for KConst {
+        const NEVER_ZERO: bool = true;
+        fn mk() -> impl View<f64> + 'static {
+            Constant::new(2.0f64)
+        }
+        fn spec() -> Spec {
+            Spec::constant(2.0)
+        }
+    }
+    impl Mk for KSma {
+        fn mk() -> impl View<f64> + 'static {
+            Sma::new(Echo::<f64>::new(), 2)
+        }
+        fn spec() -> Spec {
+            Spec::un(Kind::Sma, 2, Spec::echo())
+        }
+    }
+    impl Mk for KEma {
+        fn mk() -> impl View<f64> + 'static {
+            Ema::new(Echo::<f64>::new(), 3)
+        }
+        fn spec() -> Spec {
+            Spec::un(Kind::Ema, 3, Spec::echo())
+        }
+    }
+    impl Mk for KCum {
+        fn mk() -> impl View<f64> + 'static {
+            Cumulative::new(Echo::<f64>::new(), 2)
+        }
+        fn spec() -> Spec {
+            Spec::un(Kind::Cumulative, 2, Spec::echo())
+        }
+    }
+    impl Mk for KRoc {
+        fn mk() -> impl View<f64> + 'static {
+            Roc::new(Echo::<f64>::new(), 1)
+        }
+        fn spec() -> Spec {
+            Spec::un(Kind::Roc, 1, Spec::echo())
+        }
+    }
+    impl Mk for KGte {
+        const NEVER_ZERO: bool = true;
+        fn mk() -> impl View<f64> + 'static {
+            GTE::new(Echo::<f64>::new(), 1.0)
+        }
+        fn spec() -> Spec {
+            Spec::unp(Kind::GTE, 0, vec![1.0], Spec::echo())
+        }
+    }
+
+    /// one (shape, combinator, children) configuration over every sequence of `depth` letters
+    #[allow(clippy::too_many_arguments)]
+    fn run_shape<N: View<f64>, VA: View<f64>, VB: View<f64>>(
+        spec: &Spec,
+        shape: &str,
+        mk: &dyn Fn() -> N,
+        mka: &dyn Fn() -> VA,
+        mkb: &dyn Fn() -> VB,
+        op: fn(f64, f64) -> f64,
+        outer: fn(f64) -> f64,
+        exact_sign: bool,
+        check_initial: bool,
+        seqs: &[Vec<f64>],
+        st: &mut Stats,
+        sink: &Sink,
+    ) {
+        st.configs += 1;
+        let fail = |hist: &[f64], clause: &str, msg: String| {
+            sink.push(Violation::new("C14", spec, clause, "f64", hist, format!("statically typed, shape {}: {}", shape, msg)).tag("static"));
+        };
+        if check_initial {
+            match guard(|| (mk().last(), mka().last().zip(mkb().last()).map(|(a, b)| outer(op(a, b))))) {
+                Ok((got, want)) => {
+                    if !same_mod_zero(got, want) {
+                        fail(&[], "pointwise", format!("before any update: reports {} but the pointwise function of its children gives {}", opt_key(got), opt_key(want)));
+                        return;
+                    }
+                }
+                Err(m) => {
+                    fail(&[], "panicked", m);
+                    return;
+                }
+            }
+        }
+        for h in seqs {
+            let r = guard(|| {
+                let (mut n, mut a, mut b) = (mk(), mka(), mkb());
+                for (i, &x) in h.iter().enumerate() {
+                    n.update(x);
+                    a.update(x);
+                    b.update(x);
+                    let got = n.last();
+                    let want = a.last().zip(b.last()).map(|(a, b)| outer(op(a, b)));
+                    if let Some(w) = want {
+                        if !w.is_finite() {
+                            return None; // max/min and windows of a non-finite value are not this property's matter
+                        }
+                    }
+                    let ok = if exact_sign { opt_same(got, want) } else { same_mod_zero(got, want) };
+                    if !ok {
+                        return Some((i, got, want, a.last(), b.last()));
+                    }
+                }
+                None
+            });
+            st.transitions += 3 * h.len() as u64;
+            st.oracle_evals += h.len() as u64;
+            match r {
+                Ok(None) => {}
+                Ok(Some((i, got, want, a, b))) => {
+                    fail(&h[..=i], "pointwise", format!("reports {} but the pointwise function of its children's current outputs [{}, {}] gives {}", opt_key(got), opt_key(a), opt_key(b), opt_key(want)));
+                    return;
+                }
+                Err(m) => {
+                    fail(h, "panicked", m);
+                    return;
+                }
+            }
+        }
+    }
+
+    fn shapes<C: View<f64> + 'static, VA: View<f64>, VB: View<f64>>(spec: &Spec, mk: &dyn Fn() -> C, mka: &dyn Fn() -> VA, mkb: &dyn Fn() -> VB, op: fn(f64, f64) -> f64, seqs: &[Vec<f64>], st: &mut Stats, sink: &Sink) {
+        let id: fn(f64) -> f64 = |v| v;
+        run_shape(spec, "stand-alone", mk, mka, mkb, op, id, true, true, seqs, st, sink);
+        // GTE and LTE cache the clipped value in update(): they have no output before the first step
+        run_shape(spec, "GTE(., -1e300)", &|| GTE::new(mk(), -1e300), mka, mkb, op, id, false, false, seqs, st, sink);
+        run_shape(spec, "LTE(., 1e300)", &|| LTE::new(mk(), 1e300), mka, mkb, op, id, false, false, seqs, st, sink);
+        run_shape(spec, "Tanh(.)", &|| Tanh::new(mk()), mka, mkb, op, |v| v.tanh(), true, true, seqs, st, sink);
+        // Sma(1): sum - old + new with sum == old is exactly new (up to the sign of zero); it has no output before its first update
+        run_shape(spec, "Sma(., 1)", &|| Sma::new(mk(), 1), mka, mkb, op, id, false, false, seqs, st, sink);
+    }
+
+    fn pair<A: Mk, B: Mk>(seqs: &[Vec<f64>], st: &mut Stats, sink: &Sink) {
+        shapes(&Spec::bin(Kind::Add, A::spec(), B::spec()), &|| Add::new(A::mk(), B::mk()), &A::mk, &B::mk, |a, b| a + b, seqs, st, sink);
+        shapes(&Spec::bin(Kind::Subtract, A::spec(), B::spec()), &|| Subtract::new(A::mk(), B::mk()), &A::mk, &B::mk, |a, b| a - b, seqs, st, sink);
+        shapes(&Spec::bin(Kind::Multiply, A::spec(), B::spec()), &|| Multiply::new(A::mk(), B::mk()), &A::mk, &B::mk, |a, b| a * b, seqs, st, sink);
+        if B::NEVER_ZERO {
+            shapes(&Spec::bin(Kind::Divide, A::spec(), B::spec()), &|| Divide::new(A::mk(), B::mk()), &A::mk, &B::mk, |a, b| a / b, seqs, st, sink);
+        }
+    }
+
+    fn row<A: Mk>(seqs: &[Vec<f64>], st: &mut Stats, sink: &Sink) {
+        pair::<A, KEcho>(seqs, st, sink);
+        pair::<A, KConst>(seqs, st, sink);
+        pair::<A, KSma>(seqs, st, sink);
+        pair::<A, KEma>(seqs, st, sink);
+        pair::<A, KCum>(seqs, st, sink);
+        pair::<A, KRoc>(seqs, st, sink);
+        pair::<A, KGte>(seqs, st, sink);
+    }
+
+    pub const ROWS: usize = 7;
+    pub fn run_row(i: usize, alpha: &[f64], depth: usize, st: &mut Stats, sink: &Sink) {
+        let seqs = sequences(alpha, depth);
+        match i {
+            0 => row::<KEcho>(&seqs, st, sink),
+            1 => row::<KConst>(&seqs, st, sink),
+            2 => row::<KSma>(&seqs, st, sink),
+            3 => row::<KEma>(&seqs, st, sink),
+            4 => row::<KCum>(&seqs, st, sink),
+            5 => row::<KRoc>(&seqs, st, sink),
+            _ => row::<KGte>(&seqs, st, sink),
+        }
+    }
+}
+
 pub fn run(ctx: &Ctx) -> CheckOutput {
     let quick = ctx.tier == Tier::Quick;
     let depth = if quick { 6 } else { 9 };
@@ -277,6 +480,15 @@ pub fn run(ctx: &Ctx) -> CheckOutput {
         static_nestings::<f64>(&mut st, &sink);
         JobOut { stats: st, viols: sink.take(), samples: vec![json!({"clause":"statically typed nestings of the four arithmetic combinators, f32 and f64"})] }
     }));
+    for i in 0..nested::ROWS {
+        let d = if quick { 5 } else { 7 };
+        jobs.push(Box::new(move || {
+            let mut st = Stats::default();
+            let sink = Sink::new();
+            nested::run_row(i, &Z5, d, &mut st, &sink);
+            JobOut { stats: st, viols: sink.take(), samples: vec![json!({"explorer":"TREE (by replay)","clause":"statically typed combinator over every ordered pair of 7 children, stand-alone and inside GTE/LTE/Tanh/Sma(1)","left child row":i,"alphabet":Z5,"depth":d})] }
+        }));
+    }
     // the stateless functions over a ladder of magnitudes (depth 2: they have no memory to fill)
     {
         use Kind::*;
@@ -313,7 +525,7 @@ pub fn run(ctx: &Ctx) -> CheckOutput {
         stats: o.stats,
         violations: o.viols,
         samples: o.samples,
-        rule: "Add/Subtract/Multiply/Divide over every ordered pair of an 8-view child pool (different readiness, different values), GTE/LTE for 6 clips x 2 children, Tanh x 3 children, Echo, Constant: TREE over Z5, bit-exact comparison with the pointwise function of the stand-alone children's current outputs at every node, including before the first update".into(),
+        rule: "Add/Subtract/Multiply/Divide over every ordered pair of an 8-view child pool (different readiness, different values), GTE/LTE for 6 clips x 2 children, Tanh x 3 children, Echo, Constant: TREE over Z5, bit-exact comparison with the pointwise function of the stand-alone children's current outputs at every node, including before the first update; the same four combinators statically typed (no type erasure) over every ordered pair of 7 children, stand-alone and inside GTE/LTE/Tanh/Sma(1), over every Z5 sequence of the stated depth".into(),
         assumptions: vec!["children are advanced in lockstep as stand-alone instances (their own correctness is C01/C02's matter)".into()],
         exhaustive: true,
         bounds: json!({"depth": depth}),
